@@ -16,7 +16,11 @@ MANIFEST = {
             "JSON number mapping, serde_json's number parser with and without float_roundtrip): every finite double reads "
             "back identically through to_string->to_number, source emission, formatter and JSON under the named library "
             "contracts (Rust Display / {:.0} / str::parse / serde_json text), radix/underscore/leading-dot/exponent literal "
-            "value theorems without library hypotheses, rn_decimal tied to Flocq's round-to-nearest-even; model and "
+            "value theorems without library hypotheses (pinned tree: 0x/0b below 2^63, rejected above = F25; repaired tree, "
+            "fixes/C16-radix-literal-range.diff: the u128-accumulator + sticky-bit conversion parse_radix_digits returns the "
+            "nearest double of the digit string's integer for EVERY length, C16_hex/bin_literal_value_fixed — which of the two "
+            "models the correspondence runs is decided by probing the built crate), rn_decimal tied to Flocq's "
+            "round-to-nearest-even; model and "
             "contracts tied to the code by the NUMTEXT correspondence (every path's Rust text re-read by the Coq reference "
             "rn_decimal and by the implementation; literals valued by Coq, Rust and an independent Python reference) and "
             "by a round-trip search on the implementation incl. the real CLI",
@@ -30,6 +34,7 @@ MANIFEST = {
 REQ = ["Blots.Num", "Blots.Outcome", "Blots.gen.Builtins", "Blots.Ast", "Blots.NumText"]
 F17 = "serde-json-lossy-float-parse"
 F25 = "radix-literal-ge-2^63-rejected"
+F25_PROBE = ["0xFFFFFFFFFFFFFFFF", "0x8000000000000000", "0b1" + "0" * 63, "0x1" + "0" * 40]
 
 
 # --------------------------------------------------------------------------- helpers
@@ -267,6 +272,9 @@ def under(rng, alphabet, maxlen, groups=3):
     return "".join(g)
 
 
+WIDE_SEEN = {}
+
+
 def gen_literal(rng):
     """(text, class) — class 'doc' = inside the documented literal grammar, 'odd' = anything else"""
     r = rng.below(100)
@@ -287,6 +295,10 @@ def gen_literal(rng):
         t = "." + digits_group(rng, D, 10)
         if rng.chance(1, 3):
             t += rng.choice("eE") + rng.choice(["", "+", "-"]) + str(rng.below(330))
+        return t, "doc"
+    if 48 <= r < 74 and rng.chance(1, 2):      # wide hex / binary (F25 class and its neighbourhood)
+        t, k = gen_wide_literal(rng)
+        WIDE_SEEN[t] = k
         return t, "doc"
     if r < 62:      # hex
         n = rng.choice([1, 2, 4, 8, 12, 15, 16, 16, 16, 17, 20])
@@ -331,16 +343,41 @@ def gen_literal(rng):
     return t, "odd"
 
 
-def py_literal_value(t):
-    """independent reference: big-integer / correctly rounded decimal value of a documented literal,
-    or 'OVER' for a radix literal >= 2^63, or None when t is not in the documented grammar."""
+def int_to_double_bits(v):
+    """bits of the double nearest to the non-negative integer v (ties to even), +inf from 2^1024 - 2^970 on
+    (Python's int -> float conversion is correctly rounded and raises OverflowError exactly there)"""
+    try:
+        return bits_of(float(v))
+    except OverflowError:
+        return 0x7FF0000000000000
+
+
+def radix_int(t):
+    """the integer a documented unsigned 0x / 0b literal denotes, or None"""
     import re
     if re.fullmatch(r"0x[0-9a-fA-F]+(_+[0-9a-fA-F]+)*", t):
-        v = int(t[2:].replace("_", ""), 16)
-        return "OVER" if v >= 2 ** 63 else bits_of(float(v))
+        return int(t[2:].replace("_", ""), 16)
     if re.fullmatch(r"0b[01]+(_+[01]+)*", t):
-        v = int(t[2:].replace("_", ""), 2)
-        return "OVER" if v >= 2 ** 63 else bits_of(float(v))
+        return int(t[2:].replace("_", ""), 2)
+    return None
+
+
+def radix_over(t):
+    """is t (after any prefix negations) a 0x / 0b literal of the F25 class: value >= 2^63"""
+    v = radix_int(t.lstrip("-"))
+    return v is not None and v >= 2 ** 63
+
+
+def py_literal_value(t):
+    """independent reference: bits of the big-integer / correctly rounded decimal value of a documented literal
+    (any number of prefix negations applied), or None when t is not in the documented grammar."""
+    import re
+    if t.startswith("-"):
+        r = py_literal_value(t[1:])
+        return None if r is None else r ^ (1 << 63)
+    v = radix_int(t)
+    if v is not None:
+        return int_to_double_bits(v)
     if re.fullmatch(r"([0-9]+(_+[0-9]+)*(\.[0-9]+)?|\.[0-9]+)([eE][+-]?[0-9]+)?", t):
         s = t.replace("_", "")
         if s.startswith("."):
@@ -350,6 +387,86 @@ def py_literal_value(t):
         except (OverflowError, ValueError):
             return None
     return None
+
+
+# ---- wide radix literals (F25 and its repair): values chosen around the places where a wide-accumulator /
+# sticky-bit conversion can go wrong, rendered in hexadecimal or binary
+WIDE_KINDS = ("near-2^53", "near-2^63", "near-2^64", "near-2^127/128", "near-acc-capacity", "exact-tie",
+              "tie+far-low-digit", "tie-far-low-digit", "300-digit", "overflow-edge", "random-wide")
+
+
+def big_below(rng, n):
+    """uniform-ish integer in [0, n) for n of any size (c.Rng yields 64 bits per draw)"""
+    acc = 0
+    for _ in range(n.bit_length() // 64 + 2):
+        acc = (acc << 64) | rng.next()
+    return acc % n
+
+
+def gen_wide_value(rng):
+    """(integer, kind)"""
+    k = rng.choice(WIDE_KINDS)
+    small = lambda: rng.below(7) - 3
+    if k == "near-2^53":
+        return 2 ** (53 + rng.below(3)) + rng.below(9) - 4, k
+    if k == "near-2^63":
+        return 2 ** 63 + (small() if rng.chance(1, 2) else rng.below(4096) - 2048), k
+    if k == "near-2^64":
+        return 2 ** 64 + (small() if rng.chance(1, 2) else rng.below(8192) - 4096), k
+    if k == "near-2^127/128":
+        e = rng.choice([127, 128])
+        return 2 ** e + rng.choice([small(), big_below(rng, 2 ** 76) - 2 ** 75, -(2 ** 74), 2 ** 75, 2 ** 75 + 1]), k
+    if k == "near-acc-capacity":        # 120..132 bits: where the first digits start to be left out of the accumulator
+        e = 118 + rng.below(16)
+        return 2 ** e + big_below(rng, 2 ** e), k
+    if k in ("exact-tie", "tie+far-low-digit", "tie-far-low-digit"):
+        m = 2 ** 52 + rng.below(2 ** 52)                        # 53 significant bits, last one either parity
+        sh = rng.choice([1, 2, 3, 4, 10, 11, 12, 60, 66, 70, 71, 72, 73, 74, 75, 76, 80, 100, 200, 400, 900, 969, 970])
+        v = (2 * m + 1) << (sh - 1)                             # 54 bits then zeros: halfway between two doubles
+        if k == "tie+far-low-digit":
+            v += 1 if rng.chance(2, 3) else (1 << rng.below(max(1, sh - 1)))
+        elif k == "tie-far-low-digit":
+            v -= 1 if rng.chance(2, 3) else (1 << rng.below(max(1, sh - 1)))
+        return v, k
+    if k == "300-digit":
+        nd = rng.choice([300, 60, 120, 200, 250, 255, 256, 257, 400])     # significant digits; padded to >= 300 below
+        return big_below(rng, 16 ** nd), k
+    if k == "overflow-edge":                                    # MAX, the tie MAX / 2^1024 (rounds to infinity) and around
+        return 2 ** 1024 - 2 ** 970 + rng.choice([0, -1, 1, -(2 ** 969), 2 ** 969, -(2 ** 970), 2 ** 970, 2 ** 971]), k
+    nb = 64 + rng.below(1100)
+    return big_below(rng, 2 ** nb), k
+
+
+def gen_wide_literal(rng):
+    """(text, kind): a documented unsigned 0x / 0b literal, possibly with leading zeros and `_` separators,
+    sometimes under prefix negations"""
+    v, k = gen_wide_value(rng)
+    v = max(v, 0)
+    if rng.chance(2, 3) or v.bit_length() > 700 or k == "300-digit":
+        body = "%x" % v
+        if k == "300-digit":
+            body = body.rjust(300, "0")
+        if rng.chance(1, 2):
+            body = "".join(ch.upper() if rng.chance(1, 2) else ch for ch in body)
+        pre = "0x"
+    else:
+        body = bin(v)[2:]
+        pre = "0b"
+    if rng.chance(1, 5):
+        body = "0" * (1 + rng.below(40)) + body
+    if rng.chance(1, 3):
+        cut = sorted(set(1 + rng.below(len(body)) for _ in range(1 + rng.below(3)))) if len(body) > 1 else []
+        parts, last = [], 0
+        for ccut in cut:
+            if ccut < len(body):
+                parts.append(body[last:ccut])
+                last = ccut
+        parts.append(body[last:])
+        body = ("_" if rng.chance(5, 6) else "__").join(x for x in parts if x)
+    t = pre + body
+    if rng.chance(1, 6):
+        t = rng.choice(["-", "--"]) + t
+    return t, k
 
 
 def gen_tonum_text(rng):
@@ -407,16 +524,17 @@ def gen_json_text(rng):
 
 
 # --------------------------------------------------------------------------- running
-def shrink_literal(h, t, ro, exp):
+def shrink_literal(h, t, ro, exp, skip_over=False):
     """greedy delta debugging on a failing documented literal: delete one character at a time while the
-    text stays in the documented grammar, below 2^63 for radix literals, and still fails"""
+    text stays in the documented grammar (below 2^63 for radix literals while F25 is open and unrepaired:
+    skip_over) and still fails"""
     cur, cur_ro, cur_exp = t, ro, exp
     for _ in range(40):
         cands = []
         for i in range(len(cur)):
             u = cur[:i] + cur[i + 1:]
             r = py_literal_value(u)
-            if r is not None and r != "OVER":
+            if r is not None and not (skip_over and radix_over(u)):
                 cands.append((u, hx16(r)))
         if not cands:
             break
@@ -508,6 +626,11 @@ def main(argv):
         return res.finish()
     exact_core = "float_roundtrip" in core_feats
     exact_cli = "float_roundtrip" in cli_feats
+    # which literal-conversion model runs: probe the built crate with the F25 witnesses.  Anything but the
+    # pinned behaviour (all rejected) selects the repaired model (parse_radix_digits), so that a partial or
+    # wrong repair shows up as a correspondence mismatch and as a wrong value in the search.
+    probe = c.harness_lines_resilient(h, "c16-lit", [c.hexs(t) for t in F25_PROBE])
+    radixfix = any(o != "LITERR" for o in probe)
     if replay_path:
         return replay(h, cli, replay_path)
 
@@ -552,7 +675,7 @@ def main(argv):
     pf_out = c.harness_lines_resilient(h, "c16-parsef64", [c.hexs(t) for t in tonums])
     json_out = c.harness_lines_resilient(h, "c16-json", [c.hexs(t) for t in jsons])
     o1 = len(exprs)
-    exprs += ["show_presult ref_str_parse %s" % coq_str(t) for t, _ in lits]
+    exprs += ["show_presult_rf %s ref_str_parse %s" % ("true" if radixfix else "false", coq_str(t)) for t, _ in lits]
     o2 = len(exprs)
     exprs += ["show_optnum (ref_str_parse %s)" % coq_str(t) for t in tonums]
     o3 = len(exprs)
@@ -657,7 +780,11 @@ def main(argv):
     lit_mism = []
     lit_fail = []
     lit_hist = {}
+    wide_hist = {}
     f25_hits = 0
+    f25_example = None
+    f25_texts = set()
+    over_seen = 0
     for j, ((t, cls), ro) in enumerate(zip(lits, lit_out)):
         mo = model[o1 + j]
         lit_hist[ro if ro in ("REJECT", "LITERR", "ERR", "OTHER", "EMPTY") else "value"] = \
@@ -668,27 +795,38 @@ def main(argv):
         if ro not in ("REJECT", "EMPTY", "OTHER"):
             nontrivial.add("L" + t)
         ref = py_literal_value(t)
-        # inputs of an open known-finding class are excluded from the diff (the positive theorems
-        # claim nothing about them, and a repair of the defect must not raise an alarm)
-        excluded = (ref == "OVER" and F25 in known)
-        if mo is not None and mo != "UNMODELLED" and mo != ro and not excluded:
+        # the model is the one selected by the probe (pinned: i64::from_str_radix, literals >= 2^63 rejected;
+        # repaired: parse_radix_digits), so literals of the F25 class are compared like all others; only a
+        # literal of the open class that the implementation still REJECTS is left to the known finding
+        # (a partial repair, e.g. u128::from_str_radix, is still F25 — not a new alarm, not a model mismatch)
+        still_f25 = (F25 in known and radix_over(t) and ro == "LITERR")
+        if mo is not None and mo != "UNMODELLED" and mo != ro and not still_f25:
             lit_mism.append((t, ro, mo))
+        if t in WIDE_SEEN:
+            wk = wide_hist.setdefault(WIDE_SEEN[t], {"texts": 0, "ge_2^63": 0, "value": 0, "infinity": 0, "rejected": 0})
+            wk["texts"] += 1
+            wk["ge_2^63"] += 1 if radix_over(t) else 0
+            wk["infinity" if ro in ("7ff0000000000000", "fff0000000000000") else
+               ("rejected" if ro in ("LITERR", "REJECT") else "value")] += 1
         # the property on the implementation alone, against the independent Python reference
         if ref is None:
             continue
-        if ref == "OVER":
-            big = hx16(bits_of(float(int(t[2:].replace("_", ""), 16 if t[1] == "x" else 2))))
-            if ro == "LITERR" and F25 in known:
+        if radix_over(t):
+            over_seen += 1
+            if still_f25:
                 f25_hits += 1
-            elif ro != big:
-                lit_fail.append((t, ro, big, "a hexadecimal/binary literal >= 2^63 does not denote its value"))
+                f25_texts.add(t)
+                f25_example = f25_example or t
+            elif ro != hx16(ref):
+                lit_fail.append((t, ro, hx16(ref), "a hexadecimal/binary literal >= 2^63 does not denote its value "
+                                                   "rounded to the nearest double"))
             continue
         if ro != hx16(ref):
             lit_fail.append((t, ro, hx16(ref), "a numeric literal does not denote its documented value correctly rounded"))
     # report the simplest failing literals, shrunk by deleting characters while the failure persists
     lit_fail.sort(key=lambda x: (len(x[0]), x[0]))
     for t, ro, exp, what in lit_fail[:3]:
-        t2, ro2, exp2 = shrink_literal(h, t, ro, exp)
+        t2, ro2, exp2 = shrink_literal(h, t, ro, exp, skip_over=(F25 in known and not radixfix))
         res.violation(what, {"kind": "c16-lit", "text": t2, "observed": ro2, "expected": exp2,
                              "found_as": t, "reference": "Python big-integer / correctly rounded float()",
                              "other_failing_literals": len(lit_fail) - 1,
@@ -764,7 +902,8 @@ def main(argv):
     # by the independent Python reference on the way in and by Python's correctly rounded float() on the way out
     cli_lit_checked = 0
     docl = [(t, py_literal_value(t)) for t, cls in lits if cls in ("doc", "corpus")]
-    docl = [(t, r) for t, r in docl if isinstance(r, int) and is_finite_bits(r)]
+    docl = [(t, r) for t, r in docl if isinstance(r, int) and is_finite_bits(r) and (radixfix or not radix_over(t)) and t not in f25_texts
+            and len(t) <= 100]      # one argv string holds the whole list (128 KB limit per argument)
     n_cli_lit = min(len(docl), 600 if quick else 6000)
     docl = docl[:n_cli_lit]
     for k in range(0, len(docl), 300):
@@ -795,6 +934,10 @@ def main(argv):
         elif e["class"] == F25:
             o = c.harness_lines_resilient(h, "c16-lit", [c.hexs(w["text"])])[0]
             still = (o != w["expected"])
+            if not still and f25_hits:
+                res.known("%s %s (the witness no longer reproduces, but %d other literals of the class are still "
+                          "rejected, e.g. %s)" % (e["id"], e["what"], f25_hits, f25_example[:80]))
+                continue
         res.known("%s %s%s" % (e["id"], e["what"], "" if still else " (no longer reproduces)"))
 
     n_f = sum(1 for b in xs if is_finite_bits(b))
@@ -824,7 +967,10 @@ def main(argv):
     res.streams["LITERAL"] = {"texts": len(lits), "classes": {k: sum(1 for _, cl in lits if cl == k)
                                                               for k in ("doc", "odd", "corpus")},
                               "impl_outcomes": lit_hist, "mismatches": len(lit_mism),
-                              "radix_ge_2^63_rejected_known_F25": f25_hits}
+                              "radix_ge_2^63_rejected_known_F25": f25_hits,
+                              "radix_literal_model": "repaired (parse_radix_digits)" if radixfix else "pinned (i64::from_str_radix)",
+                              "F25_probe": dict(zip(F25_PROBE, probe)), "radix_ge_2^63_texts": over_seen,
+                              "wide_radix_kinds": wide_hist}
     res.streams["TONUMBER"] = {"texts": len(tonums), "mismatches": len(tn_mism)}
     res.streams["JSONTEXT"] = {"texts": len(jsons), "mismatches": len(js_mism)}
     res.streams["CLI-LITERAL"] = {"literals": cli_lit_checked}
